@@ -20,7 +20,8 @@ META = {
 }
 
 CMDS = ['restore-same-volume', 'restore-cross-volume', 'restore-two', 'empty', 'empty-days', 'rm-star', 'rm-one', 'restore-overwrite',
-        'restore-missing-parent']
+        'restore-missing-parent', 'empty-info-dir-symlinked', 'rm-star-info-dir-symlinked']
+NCMD = len(CMDS)
 
 
 def scenario(kind, cmd):
@@ -50,14 +51,25 @@ def scenario(kind, cmd):
         elif c == 'restore-missing-parent':
             step, sel = C('restore', ['/v/w'], e, stdin=['2'], cwd='/'), ['z']
             dest = '/v/w/sub/z'
-        elif c == 'empty':
+        elif c in ('empty', 'empty-info-dir-symlinked'):
             step, sel = C('empty', [], e, cwd='/'), ['x', 'y', 'z']
         elif c == 'empty-days':
             step, sel = C('empty', ['1'], e, now='2020-01-03T12:00:00', cwd='/'), ['x', 'y']
-        elif c == 'rm-star':
+        elif c in ('rm-star', 'rm-star-info-dir-symlinked'):
             step, sel = C('rm', ['*'], e, cwd='/'), ['x', 'y', 'z']
         else:
             step, sel = C('rm', ['x'], e, cwd='/'), ['x']
+    if c.endswith('info-dir-symlinked'):
+        # info/ is a symbolic link to a directory elsewhere on the volume (files/ is a plain directory)
+        moved = []
+        for n in nodes:
+            n = list(n)
+            if n[1] == td + '/info' and n[0] == 'd':
+                continue
+            if n[1].startswith(td + '/info/'):
+                n[1] = '/v/realinfo/' + n[1][len(td + '/info/'):]
+            moved.append(n)
+        nodes = moved + [W.d('/v/realinfo', 0o700), W.l(td + '/info', '/v/realinfo', 960)]
     world = W.W(mounts=K.MOUNTS, cwd='/', nodes=nodes)
     return world, step, td, sel, dest
 
@@ -152,16 +164,16 @@ def _case(kind, cmd, k, mode=0):
 def w_crash(kind: int, cmd: int, k: int, mode: int) -> str:
     """
     pre: PARTITION is None or (cmd == PARTITION[0] and mode == PARTITION[1])
-    pre: 0 <= kind < 6 and 0 <= cmd < 9 and 0 <= k < kbound(None if PARTITION is None else PARTITION[0]) and 0 <= mode < 3
+    pre: 0 <= kind < 6 and 0 <= cmd < NCMD and 0 <= k < kbound(None if PARTITION is None else PARTITION[0]) and 0 <= mode < 3
     post: _ == ''
     """
-    return _case(rt.sel(kind, 6), rt.sel(cmd, 9), rt.sel(k, kbound(None if PARTITION is None else PARTITION[0])), rt.sel(mode, 3))
+    return _case(rt.sel(kind, 6), rt.sel(cmd, NCMD), rt.sel(k, kbound(None if PARTITION is None else PARTITION[0])), rt.sel(mode, 3))
 
 
 def obligations(tier):
     from harness import kpair
-    return kpair.obligations(tier) + [CH('W_crash_point_x_kind_x_cmd', MOD, 'w_crash', timeout=1800, partitions=[(c, md) for c in range(9) for md in range(3)], engine='W',
+    return kpair.obligations(tier) + [CH('W_crash_point_x_kind_x_cmd', MOD, 'w_crash', timeout=1800, partitions=[(c, md) for c in range(NCMD) for md in range(3)], engine='W',
                regime='selector', encodes=K.RESTORE_FUNCS + K.EMPTY_FUNCS + K.RM_FUNCS + ['shutil.move/rmtree (CPython source over the model)'],
                stubs=K.STUBS + ['SIGKILL -> sticky BaseException at the k-th system call', 'SIGINT -> one KeyboardInterrupt instead of / right after the k-th system call'],
-               bounds='crash point k in 0..(longest undisturbed run of the command scenario, measured) x 3 ways of dying (fail-stop; KeyboardInterrupt before / after the k-th system call, handlers run) x 6 kinds x 9 commands '
+               bounds='crash point k in 0..(longest undisturbed run of the command scenario, measured) x 3 ways of dying (fail-stop; KeyboardInterrupt before / after the k-th system call, handlers run) x 6 kinds x 11 commands (incl. empty / rm * on a trash dir whose info/ is a symlink) '
                                      '(restore same/cross volume, two entries, --overwrite, missing parent; empty; empty DAYS; rm *, rm one)')]
